@@ -22,6 +22,33 @@ TRUSTED = ['Python twins Lin2 / LinCT2 / Script / Logged2 / PredLt in harness/tw
 
 DTYPES = ['int64', 'int32', 'uint8', 'float64']
 
+# Defect found with this bucket and FIXED in /repo (commit 30203e6): _get_neighbourhood built
+# np.ma.masked_array(n, von_neumann_mask) around the ONE shared mask array, so a rule that assigns into its masked
+# block (n[...] = v) cleared the mask of every later cell.  The 'scribble/assign/vn' bucket and the corpus case
+# harness/corpus/C02/shared_vn_mask.json keep watching it.  (env C02_SCRIBBLE_ASSIGN_VN=0 switches the bucket off.)
+ASSIGN_VN_DEFAULT = True
+
+
+class Scribble:
+    """A rule that writes to its neighbourhood argument in place AFTER computing its value (the property quantifies
+    over all rule callables).  mode 'data': plain arrays get n[...] = 77, masked arrays get n.data[...] = 77 (the mask
+    object is left alone).  mode 'assign': masked arrays additionally get n[...] = 77 (which also unmasks in place)."""
+    def __init__(self, f, mode='data'):
+        self.f, self.mode = f, mode
+
+    def __call__(self, n, c, t):
+        v = self.f(n, c, t)
+        try:
+            if isinstance(n, np.ma.MaskedArray):
+                n.data[...] = 77
+                if self.mode == 'assign':
+                    n[...] = 77
+            else:
+                n[...] = 77
+        except (ValueError, TypeError):     # read-only buffers
+            pass
+        return v
+
 
 def _grid(rng, R, C, dtype, style):
     lo, hi = (0, 9) if dtype == 'uint8' else (-4, 9)
@@ -100,12 +127,46 @@ def generate(rng, tier):
         T = rng.choice([2, 2, 3]) if (2 * r + 1) ** 2 * R * C < 6000 else 2
         yield _case(rng, 'random/<=9x9', R, C, r, rng.choice(['moore', 'vn']), T, rng.randint(1, 2),
                     rng.choice(['script', 'linct', 'lin']))
+    # -- rules that write to their argument in place (kept last: the cases above do not depend on it)
+    for c in _scribble_cases(rng, tier, _assign_vn()):
+        yield c
+
+
+def _scribble_cases(rng, tier, assign_vn):
+    """rules that overwrite their block in place, on grids that have interior cells (rows, cols > 2r)"""
+    shapes = [(R, C) for R in range(3, 8) for C in range(3, 8)]
+    reps = 1 if tier == 'quick' else 6
+    for _ in range(reps):
+        for R, C in shapes:
+            for r in range(0, 3):
+                if not (R > 2 * r and C > 2 * r):
+                    continue
+                for ty in ('moore', 'vn'):
+                    modes = ['data'] if ty == 'vn' else ['assign']
+                    if ty == 'vn' and assign_vn:
+                        modes.append('assign')
+                    for mode in modes:
+                        dyn = rng.random() < 0.15
+                        c = _case(rng, 'scribble/%s/%s%s' % (mode, ty, '/dynamic' if dyn else ''), R, C, r, ty,
+                                  rng.choice([2, 3, 3]), rng.randint(1, 2), rng.choice(['script', 'linct', 'lin']),
+                                  mode='dyn' if dyn else 'fixed')
+                        c['scribble'] = True
+                        c['scribble_mode'] = mode
+                        yield c
+
+
+def _assign_vn():
+    import os
+    return ASSIGN_VN_DEFAULT and os.environ.get('C02_SCRIBBLE_ASSIGN_VN') != '0'
 
 
 def run_impl(c):
     import cellpylib as cpl
     ca = np.array(c['hist'], dtype=np.dtype(c['dtype']))
-    rule = Logged2(make_rule(c['rule'], dim=2))
+    inner = make_rule(c['rule'], dim=2)
+    if c.get('scribble'):
+        inner = Scribble(inner, c.get('scribble_mode', 'data'))
+    rule = Logged2(inner)           # the log is taken (as copies) before the inner rule runs
     nb = 'Moore' if c['ty'] == 'moore' else 'von Neumann'
     ts = c['T'] if c['mode'] == 'fixed' else PredLt(c['T'])
     res = call_impl(lambda: cpl.evolve2d(ca, timesteps=ts, apply_rule=rule, r=c['r'], neighbourhood=nb, memoize=False))
@@ -114,7 +175,8 @@ def run_impl(c):
     out = np.asarray(res[1])
     grids = [[[int(x) for x in row] for row in g] for g in out.tolist()] if out.ndim == 3 else []
     log = [[vals, mask, [rc[0], rc[1]], t] for ((vals, mask), rc, t) in rule.log]
-    return ['ok', {'shape': [int(x) for x in out.shape], 'grids': grids, 'log': log}]
+    ca_after = [[[int(x) for x in row] for row in g] for g in ca.tolist()]      # the caller's array after the call
+    return ['ok', {'shape': [int(x) for x in out.shape], 'grids': grids, 'log': log, 'ca_after': ca_after}]
 
 
 def _cblist(xs):
@@ -155,7 +217,9 @@ def oracle(c, obs):
     if v['shape'] != [H + steps, R, C]:
         return 'shape %s, expected %s' % (v['shape'], [H + steps, R, C])
     if v['grids'][:H] != c['hist']:
-        return 'the given history is not a prefix of the result'
+        return 'the given history is not a prefix of the result (compared with the pre-call copy)'
+    if v.get('ca_after', c['hist']) != c['hist']:
+        return 'the caller\'s array was modified by the call'
     if len(v['log']) != steps * R * C:
         return 'the rule was called %d times, expected %d' % (len(v['log']), steps * R * C)
     fresh = make_rule(c['rule'], dim=2)
